@@ -5,10 +5,11 @@ V = os.path.dirname(os.path.dirname(os.path.abspath(__file__)))
 props = [json.loads(l)['id'] for l in open(os.path.join(V, 'properties.jsonl'))]
 base = json.load(open('/root/.vp/BASELINE.json')) if os.path.exists('/root/.vp/BASELINE.json') else {}
 na_reasons = json.load(open(os.path.join(V, 'na.json'))) if os.path.exists(os.path.join(V, 'na.json')) else {}
+enabled = set(open(os.path.join(V, 'checks', 'ENABLED')).read().split())
 checks = []; claimed = set()
 for f in sorted(glob.glob(os.path.join(V, 'checks', 'C*.json'))):
     c = json.load(open(f)); pid = c['id']
-    if c.get('disabled'): continue
+    if c.get('disabled') or pid not in enabled: continue
     claimed.add(pid)
     checks.append({
         'property_id': pid,
